@@ -223,6 +223,21 @@ def annotate_single_defs(h):
                 x["_init"] = defs[r["id"]]
 
 
+def exprs_deep(n, kind=None, into_closures=True, _seen=None, _depth=0):
+    """exprs() over an expression *and* over the initialisers of the single-definition locals it mentions (each once): what
+    the expression computes, however many names its parts were given. For sub-expressions, not for whole bodies."""
+    seen = _seen if _seen is not None else set()
+    for x in exprs(n, None, into_closures):
+        if id(x) in seen:
+            continue
+        seen.add(id(x))
+        k = x.get("k")
+        if kind is None or k == kind or (isinstance(kind, tuple) and k in kind):
+            yield x
+        if k == "Path" and "_init" in x and _depth < 8:
+            yield from exprs_deep(x["_init"], kind, into_closures, seen, _depth + 1)
+
+
 def deref(n, limit=8):
     """strip(), and read a single-definition local as its initialiser (see annotate_single_defs)"""
     n = strip(n)
